@@ -368,6 +368,18 @@ class ChainBuild(Suite):
                  base={'name': 'm', 'data': {'uses': ['d.json as train-set', 'd.json as set.2', 'd.json as outer::inner', 'd.json as train']}},
                  context={'dict': {'for_namespaces': {'train-set': {'y': 99}, 'train': {'y': 98}, 'set.2': {'y': 97}, 'outer': {'y': 96},
                                                       'outer::inner': {'y': 95}}}}, hist=True),
+            # a namespace that is a textual suffix of another (`train` / `pretrain`, `inner` / `outer::inner`): a per-namespace
+            # context entry is for exactly the namespace it names
+            dict(classes=[dict(K(0, 'Abc', params=[P('x'), P('y', default=[5])]), name='abc'), dict(K(1, 'Dep', meta_inputs=[{'cls': 0}]), name='dep')],
+                 files={'d.json': {'tasks': ['@M.*'], 'x': 1}},
+                 base={'name': 'm', 'data': {'uses': ['d.json as pretrain', 'd.json as train', 'd.json as outer::inner', 'd.json as inner']}},
+                 context={'dict': {'for_namespaces': {'train': {'y': 98}, 'inner': {'y': 94}}}}, hist=True),
+            # a pattern without wildcard names whole task names: ~stat_a takes stat_a, not stat_a_report
+            dict(classes=[dict(K(0, 'StatA', params=[P('x')]), name='stat_a'), dict(K(1, 'StatB', params=[P('x')]), name='stat_b'),
+                          dict(K(2, 'StatAReport', meta_inputs=[{'cls': 0}]), name='stat_a_report'),
+                          dict(K(3, 'Summary', meta_inputs=[{'name': '~stat_a'}, {'cls': 1}]), name='summary'),
+                          dict(K(4, 'Total', meta_inputs=[{'cls': 3}]), name='total')],
+                 files={}, base={'name': 'm', 'data': {'tasks': ['@M.*'], 'x': 3}}, context=None, hist=True),
             # a string with braces that are no placeholder and a backslash or quote, in a config built with global_vars
             dict(classes=[dict(K(0, 'Abc', params=[P('pattern'), P('tpl')]), name='abc'), dict(K(1, 'Dep', meta_inputs=[{'cls': 0}]), name='dep')],
                  files={}, base={'name': 'm', 'data': {'tasks': ['@M.*'], 'pattern': '\\d{4}-{X}', 'tpl': ["it's {}", 'part_{}.json', '\\w{2,3}']}},
